@@ -1,4 +1,565 @@
 /- Helper lemmas about RV.Model.Password used by RV.Props.C04 and RV.Props.C11. -/
 import RV.Model.Password
 namespace RV
+
+/-! ### xorBytes algebra -/
+
+theorem xorBytes_comm (a b : Bytes) : xorBytes a b = xorBytes b a := by
+  induction a generalizing b with
+  | nil => simp
+  | cons x xs ih =>
+    cases b with
+    | nil => simp
+    | cons y ys => simp [ih, UInt8.xor_comm]
+
+theorem xorBytes_cancel (a b : Bytes) (h : a.length ≤ b.length) :
+    xorBytes (xorBytes a b) b = a := by
+  induction a generalizing b with
+  | nil => simp
+  | cons x xs ih =>
+    cases b with
+    | nil => simp at h
+    | cons y ys =>
+      simp at h
+      simp [ih ys h, UInt8.xor_assoc]
+
+theorem xorBytes_cancel' (a b : Bytes) (h : a.length ≤ b.length) :
+    xorBytes b (xorBytes a b) = a := by
+  rw [xorBytes_comm, xorBytes_cancel a b h]
+
+theorem xorBytes_zeros_left (h : Bytes) (n : Nat) (hn : h.length ≤ n) :
+    xorBytes (zeros n) h = h := by
+  induction h generalizing n with
+  | nil => simp
+  | cons y ys ih =>
+    cases n with
+    | zero => simp at hn
+    | succ n =>
+      simp at hn
+      have := ih n hn
+      simp [zeros, List.replicate_succ] at this ⊢
+      exact this
+
+theorem zeros_length (n : Nat) : (zeros n).length = n := by simp [zeros]
+
+theorem xorInto_eq (h p : Bytes) (hp : p.length ≤ h.length) :
+    xorInto h p = xorBytes (p ++ zeros (h.length - p.length)) h := by
+  induction p generalizing h with
+  | nil => simp [xorInto, xorBytes_zeros_left]
+  | cons x xs ih =>
+    cases h with
+    | nil => simp at hp
+    | cons y ys =>
+      simp at hp
+      have := ih ys hp
+      simp [xorInto] at this ⊢
+      simp [this, UInt8.xor_comm]
+
+theorem xorInto_length (h p : Bytes) (hp : p.length ≤ h.length) :
+    (xorInto h p).length = h.length := by
+  rw [xorInto_eq h p hp, xorBytes_length]
+  simp [zeros_length]
+  omega
+
+/-! ### unfolding lemmas -/
+
+theorem upEncLoop_nil (H : Hash) (s prev : Bytes) : upEncLoop H s prev [] = [] := by
+  rw [upEncLoop]; simp
+
+theorem upEncLoop_ne (H : Hash) (s prev rest : Bytes) (h : rest ≠ []) :
+    upEncLoop H s prev rest =
+      xorInto (H (s ++ prev)) (rest.take 16) ++
+        upEncLoop H s (xorInto (H (s ++ prev)) (rest.take 16)) (rest.drop 16) := by
+  rw [upEncLoop]; simp [h]
+
+theorem upDecLoop_nil (H : Hash) (s prev : Bytes) : upDecLoop H s prev [] = [] := by
+  rw [upDecLoop]; simp
+
+theorem upDecLoop_ne (H : Hash) (s prev rest : Bytes) (h : rest ≠ []) :
+    upDecLoop H s prev rest =
+      xorBytes (H (s ++ prev)) (rest.take 16) ++ upDecLoop H s (rest.take 16) (rest.drop 16) := by
+  rw [upDecLoop]; simp [h]
+
+theorem tpEncLoop_nil (H : Hash) (s iv : Bytes) : tpEncLoop H s iv [] = [] := by
+  rw [tpEncLoop]; simp
+
+theorem tpEncLoop_ne (H : Hash) (s iv rest : Bytes) (h : rest ≠ []) :
+    tpEncLoop H s iv rest =
+      xorBytes (rest.take 16) (H (s ++ iv)) ++
+        tpEncLoop H s (xorBytes (rest.take 16) (H (s ++ iv))) (rest.drop 16) := by
+  rw [tpEncLoop]; simp [h]
+
+theorem tpDecLoop_nil (H : Hash) (s iv : Bytes) : tpDecLoop H s iv [] = [] := by
+  rw [tpDecLoop]; simp
+
+theorem tpDecLoop_ne (H : Hash) (s iv rest : Bytes) (h : rest ≠ []) :
+    tpDecLoop H s iv rest =
+      xorBytes (rest.take 16) (H (s ++ iv)) ++ tpDecLoop H s (rest.take 16) (rest.drop 16) := by
+  rw [tpDecLoop]; simp [h]
+
+theorem blocks_nil : Rfc2865.blocks [] = [] := by
+  rw [Rfc2865.blocks]; simp
+
+theorem blocks_ne (b : Bytes) (h : b ≠ []) :
+    Rfc2865.blocks b = b.take 16 :: Rfc2865.blocks (b.drop 16) := by
+  rw [Rfc2865.blocks]; simp [h]
+
+/-! ### blocks -/
+
+theorem blocks_flatten (b : Bytes) : (Rfc2865.blocks b).flatten = b := by
+  induction b using Rfc2865.blocks.induct with
+  | case1 => simp [blocks_nil]
+  | case2 b h ih => rw [blocks_ne b h]; simp [ih]
+
+theorem blocks_all16 (b : Bytes) (hb : b.length % 16 = 0) :
+    ∀ p ∈ Rfc2865.blocks b, p.length = 16 := by
+  induction b using Rfc2865.blocks.induct with
+  | case1 => simp [blocks_nil]
+  | case2 b h ih =>
+    rw [blocks_ne b h]
+    have hl : 16 ≤ b.length := by
+      cases b with
+      | nil => exact absurd rfl h
+      | cons x xs => simp at hb ⊢; omega
+    intro p hp
+    simp at hp
+    rcases hp with hp | hp
+    · subst hp; simp; omega
+    · exact ih (by simp; omega) p hp
+
+/-- padding length used by the RFC -/
+abbrev padLen (n : Nat) : Nat := (16 - n % 16) % 16
+
+theorem pad_take (rest : Bytes) (h : rest ≠ []) :
+    (rest ++ zeros (padLen rest.length)).take 16 =
+      rest.take 16 ++ zeros (16 - (rest.take 16).length) := by
+  have hl : 0 < rest.length := List.length_pos_iff.mpr h
+  rw [List.take_append]
+  congr 1
+  simp only [zeros, List.take_replicate, List.length_take, padLen]
+  congr 1
+  omega
+
+theorem pad_drop (rest : Bytes) (h : rest ≠ []) :
+    (rest ++ zeros (padLen rest.length)).drop 16 =
+      rest.drop 16 ++ zeros (padLen (rest.drop 16).length) := by
+  have hl : 0 < rest.length := List.length_pos_iff.mpr h
+  rw [List.drop_append]
+  congr 1
+  simp only [zeros, List.drop_replicate, List.length_drop, padLen]
+  congr 1
+  omega
+
+/-! ### User-Password -/
+
+theorem upEncLoop_eq_hide (H : Hash) (hH : ∀ x, (H x).length = 16) (s prev rest : Bytes) :
+    upEncLoop H s prev rest =
+      (Rfc2865.hide H s prev (Rfc2865.blocks (rest ++ zeros (padLen rest.length)))).flatten := by
+  induction prev, rest using upEncLoop.induct H s with
+  | case1 prev => simp [upEncLoop_nil, zeros, blocks_nil, Rfc2865.hide]
+  | case2 prev rest h c ih =>
+    rw [upEncLoop_ne H s prev rest h, blocks_ne _ (by simp [h]), pad_take rest h, pad_drop rest h]
+    simp only [Rfc2865.hide, List.flatten_cons]
+    have hc : c = xorBytes (rest.take 16 ++ zeros (16 - (rest.take 16).length)) (H (s ++ prev)) := by
+      show xorInto _ _ = _
+      rw [xorInto_eq _ _ (by simp [hH]; omega), hH]
+    rw [← hc, ← ih]
+
+theorem pad16_length_mod (p : Bytes) : (Rfc2865.pad16 p).length % 16 = 0 := by
+  unfold Rfc2865.pad16
+  split
+  · simp [zeros]
+  · simp [zeros]; omega
+
+theorem pad16_length (p : Bytes) :
+    (Rfc2865.pad16 p).length = 16 * max 1 ((p.length + 15) / 16) := by
+  unfold Rfc2865.pad16
+  split
+  · next h => subst h; simp [zeros]
+  · next h =>
+    have hl : 0 < p.length := List.length_pos_iff.mpr h
+    simp [zeros]; omega
+
+/-- the whole encryption (first block included) when the plaintext is non-empty is just the loop -/
+theorem newUserPassword_body (H : Hash) (hH : ∀ x, (H x).length = 16) (plain s ra : Bytes) :
+    xorInto (H (s ++ ra)) (plain.take 16) ++
+        upEncLoop H s (xorInto (H (s ++ ra)) (plain.take 16)) (plain.drop 16) =
+      Rfc2865.userPasswordCipher H plain s ra := by
+  unfold Rfc2865.userPasswordCipher Rfc2865.pad16
+  split
+  · next h =>
+    subst h
+    have hz : zeros 16 ≠ [] := by simp [zeros]
+    have e := xorInto_eq (H (s ++ ra)) [] (by simp)
+    rw [hH] at e
+    simp only [List.take_nil, List.drop_nil, upEncLoop_nil, List.append_nil, List.length_nil,
+      Nat.sub_zero, List.nil_append] at e ⊢
+    rw [blocks_ne _ hz]
+    have : (zeros 16).drop 16 = [] := by simp [zeros]
+    rw [this, blocks_nil]
+    have : (zeros 16).take 16 = zeros 16 := by simp [zeros]
+    rw [this]
+    simp [Rfc2865.hide, e]
+  · next h =>
+    rw [← upEncLoop_ne H s ra plain h]
+    exact upEncLoop_eq_hide H hH s ra plain
+
+theorem newUserPassword_ok (H : Hash) (plain s ra c : Bytes)
+    (h : newUserPassword H plain s ra = .ok c) :
+    plain.length ≤ 128 ∧ s ≠ [] ∧ ra.length = 16 ∧
+      c = xorInto (H (s ++ ra)) (plain.take 16) ++
+        upEncLoop H s (xorInto (H (s ++ ra)) (plain.take 16)) (plain.drop 16) := by
+  unfold newUserPassword at h
+  split at h
+  · cases h
+  · split at h
+    · cases h
+    · split at h
+      · cases h
+      · next h1 h2 h3 =>
+        simp only [Res.ok.injEq] at h
+        refine ⟨by omega, ?_, by omega, h.symm⟩
+        intro e; subst e; simp at h2
+
+theorem newUserPassword_ok_iff (H : Hash) (plain s ra : Bytes) :
+    (∃ c, newUserPassword H plain s ra = .ok c) ↔
+      plain.length ≤ 128 ∧ s ≠ [] ∧ ra.length = 16 := by
+  constructor
+  · rintro ⟨c, h⟩
+    have := newUserPassword_ok H plain s ra c h
+    exact ⟨this.1, this.2.1, this.2.2.1⟩
+  · rintro ⟨h1, h2, h3⟩
+    have : s.length ≠ 0 := by
+      intro e; exact h2 (List.length_eq_zero_iff.mp e)
+    unfold newUserPassword
+    simp [show ¬ plain.length > 128 by omega, this, h3]
+
+theorem newUserPassword_ne_fault (H : Hash) (plain s ra : Bytes) :
+    newUserPassword H plain s ra ≠ .fault := by
+  unfold newUserPassword
+  repeat' split
+  all_goals simp
+
+theorem newUserPassword_eq_rfc (H : Hash) (hH : ∀ x, (H x).length = 16) (plain s ra c : Bytes)
+    (h : newUserPassword H plain s ra = .ok c) :
+    c = Rfc2865.userPasswordCipher H plain s ra := by
+  rw [(newUserPassword_ok H plain s ra c h).2.2.2]
+  exact newUserPassword_body H hH plain s ra
+
+theorem hide_flatten_length (H : Hash) (hH : ∀ x, (H x).length = 16) (s prev : Bytes)
+    (ps : List Bytes) (hp : ∀ p ∈ ps, p.length = 16) :
+    (Rfc2865.hide H s prev ps).flatten.length = ps.flatten.length := by
+  induction ps generalizing prev with
+  | nil => simp [Rfc2865.hide]
+  | cons p ps ih =>
+    simp only [Rfc2865.hide, List.flatten_cons, List.length_append, xorBytes_length, hH]
+    rw [ih _ (fun q hq => hp q (List.mem_cons_of_mem _ hq))]
+    have := hp p (List.mem_cons_self)
+    omega
+
+theorem userPasswordCipher_length (H : Hash) (hH : ∀ x, (H x).length = 16) (plain s ra : Bytes) :
+    (Rfc2865.userPasswordCipher H plain s ra).length = 16 * max 1 ((plain.length + 15) / 16) := by
+  unfold Rfc2865.userPasswordCipher
+  rw [hide_flatten_length H hH _ _ _ (blocks_all16 _ (pad16_length_mod plain)), blocks_flatten,
+    pad16_length]
+
+/-- decryption inverts the RFC chain on full blocks -/
+theorem upDecLoop_hide (H : Hash) (hH : ∀ x, (H x).length = 16) (s prev : Bytes)
+    (ps : List Bytes) (hp : ∀ p ∈ ps, p.length = 16) :
+    upDecLoop H s prev (Rfc2865.hide H s prev ps).flatten = ps.flatten := by
+  induction ps generalizing prev with
+  | nil => simp [Rfc2865.hide, upDecLoop_nil]
+  | cons p ps ih =>
+    have hpl := hp p (List.mem_cons_self)
+    simp only [Rfc2865.hide, List.flatten_cons]
+    have hcl : (xorBytes p (H (s ++ prev))).length = 16 := by
+      simp [xorBytes_length, hH, hpl]
+    have hne : xorBytes p (H (s ++ prev)) ++
+        (Rfc2865.hide H s (xorBytes p (H (s ++ prev))) ps).flatten ≠ [] := by
+      intro e
+      have := congrArg List.length e
+      simp [hcl] at this
+    rw [upDecLoop_ne _ _ _ _ hne]
+    rw [List.take_left' hcl, List.drop_left' hcl]
+    rw [ih _ (fun q hq => hp q (List.mem_cons_of_mem _ hq))]
+    rw [xorBytes_cancel' p _ (by rw [hH]; omega)]
+
+theorem upDecLoop_cipher (H : Hash) (hH : ∀ x, (H x).length = 16) (plain s ra : Bytes) :
+    upDecLoop H s ra (Rfc2865.userPasswordCipher H plain s ra) = Rfc2865.pad16 plain := by
+  unfold Rfc2865.userPasswordCipher
+  rw [upDecLoop_hide H hH _ _ _ (blocks_all16 _ (pad16_length_mod plain)), blocks_flatten]
+
+theorem takeWhile_append_zeros (l : Bytes) (k : Nat) :
+    (l ++ zeros k).takeWhile (· ≠ 0) = l.takeWhile (· ≠ 0) := by
+  induction l with
+  | nil => cases k <;> simp [zeros, List.replicate_succ, List.takeWhile]
+  | cons x xs ih =>
+    simp only [List.cons_append, List.takeWhile_cons]
+    split
+    · rw [ih]
+    · rfl
+
+theorem cutAtNul_pad16 (p : Bytes) : cutAtNul (Rfc2865.pad16 p) = p.takeWhile (· ≠ 0) := by
+  unfold cutAtNul Rfc2865.pad16
+  split
+  · next h => subst h; simp [zeros, List.replicate_succ, List.takeWhile]
+  · exact takeWhile_append_zeros p _
+
+theorem takeWhile_nulfree (p : Bytes) (hn : ∀ x ∈ p, x ≠ 0) : p.takeWhile (· ≠ 0) = p := by
+  induction p with
+  | nil => simp
+  | cons x xs ih =>
+    have hx := hn x (List.mem_cons_self)
+    rw [List.takeWhile_cons, ih (fun y hy => hn y (List.mem_cons_of_mem _ hy))]
+    simp [hx]
+
+theorem userPassword_ok_iff (H : Hash) (a s ra : Bytes) :
+    (∃ p, userPassword H a s ra = .ok p) ↔
+      16 ≤ a.length ∧ a.length ≤ 128 ∧ a.length % 16 = 0 ∧ s ≠ [] ∧ ra.length = 16 := by
+  have hs : s.length = 0 ↔ s = [] := List.length_eq_zero_iff
+  unfold userPassword
+  constructor
+  · rintro ⟨p, h⟩
+    split at h
+    · cases h
+    · split at h
+      · cases h
+      · split at h
+        · cases h
+        · next h1 h2 h3 =>
+          refine ⟨by omega, by omega, by omega, fun e => h2 (hs.mpr e), by omega⟩
+  · rintro ⟨h1, h2, h3, h4, h5⟩
+    have : ¬ (a.length < 16 ∨ a.length > 128 ∨ a.length % 16 ≠ 0) := by omega
+    have h4' : s.length ≠ 0 := fun e => h4 (hs.mp e)
+    simp [this, h4', h5]
+
+theorem userPassword_ne_fault (H : Hash) (a s ra : Bytes) : userPassword H a s ra ≠ .fault := by
+  unfold userPassword
+  repeat' split
+  all_goals simp
+
+theorem userPassword_roundtrip (H : Hash) (hH : ∀ x, (H x).length = 16) (plain s ra c : Bytes)
+    (h : newUserPassword H plain s ra = .ok c) :
+    userPassword H c s ra = .ok (plain.takeWhile (· ≠ 0)) := by
+  have hok := newUserPassword_ok H plain s ra c h
+  have hc := newUserPassword_eq_rfc H hH plain s ra c h
+  have hl := userPasswordCipher_length H hH plain s ra
+  rw [← hc] at hl
+  have hs : s.length ≠ 0 := fun e => hok.2.1 (List.length_eq_zero_iff.mp e)
+  have hg : ¬ (c.length < 16 ∨ c.length > 128 ∨ c.length % 16 ≠ 0) := by
+    have := hok.1
+    omega
+  unfold userPassword
+  simp only [hg, hs, hok.2.2.1, if_false, ne_eq, not_true_eq_false]
+  rw [hc, upDecLoop_cipher H hH, cutAtNul_pad16]
+
+/-! ### Tunnel-Password -/
+
+theorem bv8_hi : ∀ x : BitVec 8, (x &&& 0x80#8 ≠ 0x80#8) ↔ x.toNat < 128 := by decide
+
+theorem u8_hi (x : UInt8) : (x &&& 0x80 ≠ 0x80) ↔ x.toNat < 128 := by
+  have := bv8_hi x.toBitVec
+  rw [← UInt8.toNat_toBitVec, ← this, ne_eq, ne_eq, ← UInt8.toBitVec_inj]
+  rfl
+
+theorem tpEncLoop_eq_encrypt (H : Hash) (s iv rest : Bytes) :
+    tpEncLoop H s iv rest = (Rfc2868.encrypt H s iv (Rfc2865.blocks rest)).flatten := by
+  induction iv, rest using tpEncLoop.induct H s with
+  | case1 iv => simp [tpEncLoop_nil, blocks_nil, Rfc2868.encrypt]
+  | case2 iv rest h c ih =>
+    rw [tpEncLoop_ne H s iv rest h, blocks_ne _ h]
+    simp only [Rfc2868.encrypt, List.flatten_cons]
+    rw [← ih]
+
+theorem tpEncLoop_length (H : Hash) (hH : ∀ x, (H x).length = 16) (s iv rest : Bytes) :
+    (tpEncLoop H s iv rest).length = rest.length := by
+  induction iv, rest using tpEncLoop.induct H s with
+  | case1 iv => simp [tpEncLoop_nil]
+  | case2 iv rest h c ih =>
+    rw [tpEncLoop_ne H s iv rest h, List.length_append, ih, xorBytes_length, hH]
+    simp only [List.length_take, List.length_drop]
+    omega
+
+theorem tpDecLoop_length (H : Hash) (hH : ∀ x, (H x).length = 16) (s iv rest : Bytes) :
+    (tpDecLoop H s iv rest).length = rest.length := by
+  induction iv, rest using tpDecLoop.induct with
+  | case1 iv => simp [tpDecLoop_nil]
+  | case2 iv rest h ih =>
+    rw [tpDecLoop_ne H s iv rest h, List.length_append, ih, xorBytes_length, hH]
+    simp only [List.length_take, List.length_drop]
+    omega
+
+theorem tpDec_tpEnc (H : Hash) (hH : ∀ x, (H x).length = 16) (s iv rest : Bytes)
+    (hr : rest.length % 16 = 0) :
+    tpDecLoop H s iv (tpEncLoop H s iv rest) = rest := by
+  induction iv, rest using tpEncLoop.induct H s with
+  | case1 iv => simp [tpEncLoop_nil, tpDecLoop_nil]
+  | case2 iv rest h c ih =>
+    have hl : 16 ≤ rest.length := by
+      have : 0 < rest.length := List.length_pos_iff.mpr h
+      omega
+    have htl : (rest.take 16).length = 16 := by simp; omega
+    have hcl : c.length = 16 := by
+      show (xorBytes _ _).length = 16
+      rw [xorBytes_length, hH, htl]; rfl
+    rw [tpEncLoop_ne H s iv rest h]
+    show tpDecLoop H s iv (c ++ tpEncLoop H s c (rest.drop 16)) = rest
+    have hne : c ++ tpEncLoop H s c (rest.drop 16) ≠ [] := by
+      intro e
+      have := congrArg List.length e
+      simp [hcl] at this
+    rw [tpDecLoop_ne _ _ _ _ hne]
+    rw [List.take_left' hcl, List.drop_left' hcl]
+    rw [ih (by simp; omega)]
+    show xorBytes (xorBytes _ _) _ ++ _ = _
+    rw [xorBytes_cancel _ _ (by rw [hH, htl]; omega), List.take_append_drop]
+
+theorem tpPlain_eq (pw : Bytes) :
+    UInt8.ofNat pw.length :: pw ++ zeros ((1 + pw.length + 15) / 16 * 16 - 1 - pw.length) =
+      Rfc2868.plaintext pw := by
+  unfold Rfc2868.plaintext
+  simp only [List.length_cons]
+  congr 2
+  omega
+
+theorem plaintext_length (pw : Bytes) :
+    (Rfc2868.plaintext pw).length = 16 * ((1 + pw.length + 15) / 16) := by
+  unfold Rfc2868.plaintext
+  simp [zeros]
+  omega
+
+theorem plaintext_head (pw : Bytes) :
+    (Rfc2868.plaintext pw).getD 0 0 = UInt8.ofNat pw.length := by
+  unfold Rfc2868.plaintext
+  simp
+
+theorem plaintext_body (pw : Bytes) :
+    ((Rfc2868.plaintext pw).drop 1).take pw.length = pw := by
+  unfold Rfc2868.plaintext
+  simp
+
+theorem newTunnelPassword_ok (H : Hash) (pw salt s ra a : Bytes)
+    (h : newTunnelPassword H pw salt s ra = .ok a) :
+    pw.length ≤ 239 ∧ salt.length = 2 ∧ 128 ≤ (salt.getD 0 0).toNat ∧ s ≠ [] ∧ ra.length = 16 ∧
+      a = salt ++ tpEncLoop H s (ra ++ salt) (Rfc2868.plaintext pw) := by
+  unfold newTunnelPassword at h
+  split at h
+  · cases h
+  · split at h
+    · cases h
+    · split at h
+      · cases h
+      · split at h
+        · cases h
+        · split at h
+          · cases h
+          · next h1 h2 h3 h4 h5 =>
+            simp only [Res.ok.injEq, tpPlain_eq] at h
+            rw [u8_hi] at h3
+            refine ⟨by simp [tunnelPasswordMax] at h1; omega, by omega, by omega, ?_, by omega, h.symm⟩
+            intro e; subst e; simp at h4
+
+theorem newTunnelPassword_ok_iff (H : Hash) (pw salt s ra : Bytes) :
+    (∃ a, newTunnelPassword H pw salt s ra = .ok a) ↔
+      pw.length ≤ 239 ∧ salt.length = 2 ∧ 128 ≤ (salt.getD 0 0).toNat ∧ s ≠ [] ∧ ra.length = 16 := by
+  constructor
+  · rintro ⟨a, h⟩
+    have := newTunnelPassword_ok H pw salt s ra a h
+    exact ⟨this.1, this.2.1, this.2.2.1, this.2.2.2.1, this.2.2.2.2.1⟩
+  · rintro ⟨h1, h2, h3, h4, h5⟩
+    have hs : s.length ≠ 0 := fun e => h4 (List.length_eq_zero_iff.mp e)
+    have hb : ¬ ((salt.getD 0 0) &&& 0x80 ≠ 0x80) := by rw [u8_hi]; omega
+    unfold newTunnelPassword
+    simp only [show ¬ pw.length > tunnelPasswordMax by simp [tunnelPasswordMax]; omega, h2, hb, hs, h5,
+      if_false, ne_eq, not_true_eq_false]
+    exact ⟨_, rfl⟩
+
+theorem newTunnelPassword_ne_fault (H : Hash) (pw salt s ra : Bytes) :
+    newTunnelPassword H pw salt s ra ≠ .fault := by
+  unfold newTunnelPassword
+  repeat' split
+  all_goals simp
+
+theorem newTunnelPassword_eq_rfc (H : Hash) (pw salt s ra a : Bytes)
+    (h : newTunnelPassword H pw salt s ra = .ok a) :
+    a = Rfc2868.tunnelPasswordCipher H pw salt s ra := by
+  rw [(newTunnelPassword_ok H pw salt s ra a h).2.2.2.2.2, tpEncLoop_eq_encrypt]
+  rfl
+
+theorem newTunnelPassword_length (H : Hash) (hH : ∀ x, (H x).length = 16) (pw salt s ra a : Bytes)
+    (h : newTunnelPassword H pw salt s ra = .ok a) :
+    a.length = 2 + 16 * ((1 + pw.length + 15) / 16) := by
+  have hok := newTunnelPassword_ok H pw salt s ra a h
+  rw [hok.2.2.2.2.2, List.length_append, tpEncLoop_length H hH, plaintext_length, hok.2.1]
+
+theorem tunnelPassword_ne_fault (H : Hash) (a s ra : Bytes) : tunnelPassword H a s ra ≠ .fault := by
+  unfold tunnelPassword
+  repeat' split
+  all_goals try (dsimp only; split)
+  all_goals simp
+
+theorem tunnelPassword_roundtrip (H : Hash) (hH : ∀ x, (H x).length = 16) (pw salt s ra a : Bytes)
+    (h : newTunnelPassword H pw salt s ra = .ok a) :
+    tunnelPassword H a s ra = .ok (pw, salt) := by
+  have hok := newTunnelPassword_ok H pw salt s ra a h
+  obtain ⟨h1, h2, h3, h4, h5, ha⟩ := hok
+  have hlen := newTunnelPassword_length H hH pw salt s ra a h
+  have hs : s.length ≠ 0 := fun e => h4 (List.length_eq_zero_iff.mp e)
+  have hg : ¬ (a.length > 252 ∨ a.length < 18 ∨ (a.length - 2) % 16 ≠ 0) := by omega
+  have htake : a.take 2 = salt := by
+    rw [ha, List.take_append_of_le_length (by omega), ← h2, List.take_length]
+  have hdrop : a.drop 2 = tpEncLoop H s (ra ++ salt) (Rfc2868.plaintext pw) := by
+    rw [ha, List.drop_append_of_le_length (by omega), ← h2, List.drop_length, List.nil_append]
+  have hhd : a.getD 0 0 = salt.getD 0 0 := by
+    rw [ha]
+    cases salt with
+    | nil => simp at h2
+    | cons x xs => simp
+  have hb : ¬ ((a.getD 0 0) &&& 0x80 ≠ 0x80) := by rw [hhd, u8_hi]; omega
+  have hpl : (Rfc2868.plaintext pw).length % 16 = 0 := by rw [plaintext_length]; omega
+  have hn : (UInt8.ofNat pw.length).toNat = pw.length := by
+    simp [UInt8.toNat_ofNat']
+    omega
+  unfold tunnelPassword
+  simp only [hg, hs, h5, hb, if_false, ne_eq, not_true_eq_false]
+  rw [htake, hdrop, tpDec_tpEnc H hH _ _ _ hpl, plaintext_head, hn, plaintext_body,
+    plaintext_length]
+  rw [if_neg (by omega)]
+
+theorem tunnelPassword_ok_iff (H : Hash) (hH : ∀ x, (H x).length = 16) (a s ra : Bytes) :
+    (∃ r, tunnelPassword H a s ra = .ok r) ↔
+      18 ≤ a.length ∧ a.length ≤ 252 ∧ (a.length - 2) % 16 = 0 ∧ s ≠ [] ∧ ra.length = 16 ∧
+      128 ≤ (a.getD 0 0).toNat ∧
+      ((tpDecLoop H s (ra ++ a.take 2) (a.drop 2)).getD 0 0).toNat ≤ a.length - 2 - 1 := by
+  have hsl : s.length = 0 ↔ s = [] := List.length_eq_zero_iff
+  have hdl : (tpDecLoop H s (ra ++ a.take 2) (a.drop 2)).length = a.length - 2 := by
+    rw [tpDecLoop_length H hH]; simp
+  unfold tunnelPassword
+  constructor
+  · rintro ⟨r, h⟩
+    split at h
+    · cases h
+    · split at h
+      · cases h
+      · split at h
+        · cases h
+        · split at h
+          · cases h
+          · next h1 h2 h3 h4 =>
+            simp only at h
+            split at h
+            · cases h
+            · next h5 =>
+              rw [u8_hi] at h4
+              rw [hdl] at h5
+              exact ⟨by omega, by omega, by omega, fun e => h2 (hsl.mpr e), by omega, by omega,
+                by omega⟩
+  · rintro ⟨h1, h2, h3, h4, h5, h6, h7⟩
+    have hg : ¬ (a.length > 252 ∨ a.length < 18 ∨ (a.length - 2) % 16 ≠ 0) := by omega
+    have hs : s.length ≠ 0 := fun e => h4 (hsl.mp e)
+    have hb : ¬ ((a.getD 0 0) &&& 0x80 ≠ 0x80) := by rw [u8_hi]; omega
+    simp only [hg, hs, h5, hb, if_false, ne_eq, not_true_eq_false]
+    rw [hdl, if_neg (by omega)]
+    exact ⟨_, rfl⟩
+
 end RV
